@@ -146,6 +146,11 @@ def run_one(seed, preset=None, tier="quick", want_case=False):
     if novars:
         raw["v0"] = 5
         mutations["operation_without_variable_definitions"] = 1
+    if tape.sub("varkind").chance(15):
+        # the same JSON object carried by a dict subclass that defines __missing__ (defaultdict / Counter style)
+        import collections
+        raw = collections.defaultdict(int, raw)
+        mutations["variables_in_a_defaultdict"] = 1
     case.variables = raw
     cfg = pick_engine_cfg(cfgt)
     sched = pick_scheduler(cfgt)
